@@ -52,6 +52,8 @@ def construct_paths(repo, cls):
 
 
 def run(chk, repo, tier):
+    from .common import no_hidden_state
+    no_hidden_state(chk, repo, 'C08')
     chk.clause('C08-a', 'every cell of the documented multiplication table equals plane._mul_ptype_table', 15)
     chk.clause('C08-b', 'the predicates consult that table, Plane.multiply asks them with (wavefront, plane) and '
                         'refuses with TypeError; no function object is used as a truth value', 4)
